@@ -41,11 +41,16 @@ def check(ctx):
     ctx.attempt(_inc, 'RX-LANG', 'multisec_regex', F.MULTISEC, ms, 'section words, lists and colon')
     _inc(ctx, 'RX-LANG', 'pp_twprge_comma_remove', F.TWPRGE_FULL + r"[,;:]?[ ]?",
          ctx.fold.get('rgxlib.twprge', 'pp_twprge_comma_remove'), 'Twp/Rge + trailing comma')
+    # 'Sections 4 through 6' expands only if the stand-alone through-check
+    # (thru_rightmost -> through_regex.search) recognises the word it matched
+    thr = ctx.fold.get('rgxlib.misc', 'through_regex')
+    ctx.attempt(_inc, 'RX-LANG', 'through_regex', F.THROUGH, thr, 'through words (any case)')
     nn = ctx.fold.get('rgxlib.sec', 'no_num_sec_regex')
     ctx.attempt(_inc, 'RX-LANG', 'no_num_sec_regex', F.SEC_WORD, nn, "the word 'Section' / abbreviations / symbol")
     ctx.attempt(_pretty, tw, ms)
     ctx.attempt(_word_tables)
     ctx.attempt(_marker_walk)
+    ctx.attempt(common.embedded_case_consistency, modules=('rgxlib.misc', 'rgxlib.sec', 'rgxlib.twprge'))
 
 
 def _pretty(ctx, tw, ms):
